@@ -16,9 +16,19 @@
 #include <stdlib.h>
 #include <string.h>
 #include <errno.h>
+#include <pthread.h>
 
 #define INITIAL_CAPACITY 64
 #define MAX_FD_COUNT 4096
+
+/* Capacity of the completion ring. A post that finds the ring full fails with -1
+ * (it is never merged with or substituted for another completion). */
+#define COMPLETION_RING_SIZE 1024
+
+typedef struct {
+    uintptr_t key;
+    uintptr_t data;
+} completion_entry_t;
 
 /**
  * Mapping entry from file descriptor to context and event mask
@@ -35,10 +45,21 @@ struct async_runtime_s {
     int capacity;
     int count;
     
-    /* Notification pipe for worker completions */
+    /* Notification pipe. Doorbell only: the bytes in it carry no information */
     int notify_pipe[2];
     
     console_type_t console_type;  /* Detected console type */
+
+    /* Posted completions travel through this mutex-protected FIFO ring; a byte is
+     * written to the pipe after each push so that poll() wakes up. The pipe cannot
+     * carry (key,data) records itself: async_runtime_wakeup() writes single bytes
+     * into the same pipe, which shifted every following 8-byte record (garbled key,
+     * lost completion), and records beyond the caller's max_events were read and
+     * thrown away. */
+    pthread_mutex_t ring_lock;
+    completion_entry_t ring[COMPLETION_RING_SIZE];
+    size_t ring_head;   /* index of the oldest entry */
+    size_t ring_count;  /* number of queued entries */
 };
 
 /* Helper functions */
@@ -131,9 +152,15 @@ async_runtime_t* async_runtime_init(void) {
         return NULL;
     }
     
-    /* Make read end non-blocking */
+    /* Make both ends non-blocking (a full pipe means the doorbell is already rung) */
     int flags = fcntl(runtime->notify_pipe[0], F_GETFL, 0);
     fcntl(runtime->notify_pipe[0], F_SETFL, flags | O_NONBLOCK);
+    flags = fcntl(runtime->notify_pipe[1], F_GETFL, 0);
+    fcntl(runtime->notify_pipe[1], F_SETFL, flags | O_NONBLOCK);
+    
+    pthread_mutex_init(&runtime->ring_lock, NULL);
+    runtime->ring_head = 0;
+    runtime->ring_count = 0;
     
     /* Add notify pipe to poll set */
     runtime->pollfds[0].fd = runtime->notify_pipe[0];
@@ -148,6 +175,8 @@ async_runtime_t* async_runtime_init(void) {
 
 void async_runtime_deinit(async_runtime_t* runtime) {
     if (!runtime) return;
+    
+    pthread_mutex_destroy(&runtime->ring_lock);
     
     if (runtime->notify_pipe[0] >= 0) close(runtime->notify_pipe[0]);
     if (runtime->notify_pipe[1] >= 0) close(runtime->notify_pipe[1]);
@@ -214,7 +243,7 @@ int async_runtime_wakeup(async_runtime_t* runtime) {
     
     char byte = 1;
     ssize_t n = write(runtime->notify_pipe[1], &byte, 1);
-    return (n == 1) ? 0 : -1;
+    return (n == 1 || (n < 0 && errno == EAGAIN)) ? 0 : -1;
 }
 
 int async_runtime_wait(async_runtime_t* runtime, io_event_t* events,
@@ -239,19 +268,35 @@ int async_runtime_wait(async_runtime_t* runtime, io_event_t* events,
         if (runtime->pollfds[i].revents) {
             /* Check if this is the notify pipe */
             if (runtime->pollfds[i].fd == runtime->notify_pipe[0]) {
-                /* Drain the pipe */
-                uint64_t val;
-                while (read(runtime->notify_pipe[0], &val, sizeof(val)) == sizeof(val)) {
-                    if (event_count < max_events) {
-                        events[event_count].fd = -1;
-                        events[event_count].completion_key = (uintptr_t)(val >> 32);
-                        events[event_count].context = NULL;
-                        events[event_count].event_type = EVENT_READ;
-                        events[event_count].bytes_transferred = (int)(val & 0xFFFFFFFF);
-                        events[event_count].buffer = NULL;
-                        event_count++;
-                    }
+                /* Reset the doorbell FIRST, then take the queued completions: an entry
+                 * pushed after the ring was emptied rings the doorbell again, so it is
+                 * seen by the next wait. A plain wakeup leaves the ring empty and
+                 * produces no event. */
+                char drain[64];
+                while (read(runtime->notify_pipe[0], drain, sizeof(drain)) > 0) {
+                    /* the bytes are meaningless */
                 }
+                pthread_mutex_lock(&runtime->ring_lock);
+                while (runtime->ring_count > 0 && event_count < max_events) {
+                    completion_entry_t* e = &runtime->ring[runtime->ring_head];
+                    events[event_count].fd = -1;
+                    events[event_count].completion_key = e->key;
+                    events[event_count].context = NULL;
+                    events[event_count].event_type = EVENT_READ;
+                    events[event_count].bytes_transferred = (size_t)e->data;
+                    events[event_count].buffer = NULL;
+                    event_count++;
+                    runtime->ring_head = (runtime->ring_head + 1) % COMPLETION_RING_SIZE;
+                    runtime->ring_count--;
+                }
+                if (runtime->ring_count > 0) {
+                    /* Caller's event array is full: ring again so the rest is delivered
+                     * by the next wait. */
+                    char one = 1;
+                    ssize_t w = write(runtime->notify_pipe[1], &one, 1);
+                    (void)w;
+                }
+                pthread_mutex_unlock(&runtime->ring_lock);
             } else {
                 /* Regular I/O event */
                 events[event_count].fd = runtime->pollfds[i].fd;
@@ -271,10 +316,22 @@ int async_runtime_wait(async_runtime_t* runtime, io_event_t* events,
 int async_runtime_post_completion(async_runtime_t* runtime, uintptr_t completion_key, uintptr_t data) {
     if (!runtime || runtime->notify_pipe[1] < 0) return -1;
     
-    uint64_t val = (((uint64_t)completion_key) << 32) | (data & 0xFFFFFFFF);
-    ssize_t n = write(runtime->notify_pipe[1], &val, sizeof(val));
+    /* Queue the completion, then ring the doorbell to wake up poll() */
+    pthread_mutex_lock(&runtime->ring_lock);
+    if (runtime->ring_count >= COMPLETION_RING_SIZE) {
+        pthread_mutex_unlock(&runtime->ring_lock);
+        return -1;  /* ring full: reported to the caller, nothing is overwritten */
+    }
+    size_t slot = (runtime->ring_head + runtime->ring_count) % COMPLETION_RING_SIZE;
+    runtime->ring[slot].key = completion_key;
+    runtime->ring[slot].data = data;
+    runtime->ring_count++;
+    pthread_mutex_unlock(&runtime->ring_lock);
     
-    return (n == sizeof(val)) ? 0 : -1;
+    char byte = 1;
+    ssize_t n = write(runtime->notify_pipe[1], &byte, 1);
+    
+    return (n == 1 || (n < 0 && errno == EAGAIN)) ? 0 : -1;
 }
 
 int async_runtime_post_read(async_runtime_t* runtime, socket_fd_t fd, void* buffer, size_t len) {
